@@ -119,10 +119,10 @@ _op("app_local_put", 2, APP, "", "ABA", "")
 _op("app_global_put", 2, APP, "", "BA", "")
 _op("app_local_del", 2, APP, "", "AB", "")
 _op("app_global_del", 2, APP, "", "B", "")
-_op("asset_holding_get", 2, APP, "assetholdf", "AU", "AU")
-_op("asset_params_get", 2, APP, "assetparamf", "U", "AU")
-_op("app_params_get", 5, APP, "appparamf", "U", "AU")
-_op("acct_params_get", 6, APP, "acctparamf", "A", "AU")
+_op("asset_holding_get", 2, APP, "assetholdf", "AU", "GU")
+_op("asset_params_get", 2, APP, "assetparamf", "U", "GU")
+_op("app_params_get", 5, APP, "appparamf", "U", "GU")
+_op("acct_params_get", 6, APP, "acctparamf", "A", "GU")
 _op("voter_params_get", 11, APP, "voterparamf", "A", "AU", sure=False)
 _op("online_stake", 11, APP, "", "", "U", sure=False)
 _op("min_balance", 3, APP, "", "A", "U")
